@@ -69,7 +69,7 @@ RuleInit(cfg) ==
    cadNs |-> [s \in St |-> -1], cadPolled |-> [s \in St |-> {}], cadVisits |-> [s \in St |-> 0], cadBad |-> FALSE,
    expectSucc |-> [s \in St |-> -1],
    appsent |-> [s \in St |-> FALSE],
-   outstanding |-> [s \in St |-> -1], rrNext |-> [s \in St |-> -1], declined |-> [s \in St |-> {}],
+   outstanding |-> [s \in St |-> -1], rrNext |-> [s \in St |-> -1], declined |-> [s \in St |-> {}], asked |-> [s \in St |-> {}], sentInVisit |-> [s \in St |-> FALSE], unasked |-> [s \in St |-> [a \in 0..3 |-> 0]],
    hw |-> NoWatch,
    rot |-> [s \in St |-> NoRot],
    lastPop |-> 0, faultsEnd |-> -1, disturbed |-> cfg.mode = "race", garbled |-> cfg.mode = "race", reached |-> FALSE, reachedAt |-> -1,
@@ -118,7 +118,7 @@ NewVisit(rs, s, claim, tok2, t) ==
       missed == full /\ ~(GapSet(s, ns, hsa) \subseteq rs.cadPolled[s])
   IN [rs EXCEPT !.recvPrev[s] = rs.recvCur[s], !.recvCur[s] = t,
                 !.visit[s] = [open |-> TRUE, claim |-> claim, gappolls |-> 0, appreqs |-> 0, tok2 |-> tok2],
-                !.declined[s] = {},
+                !.declined[s] = {}, !.asked[s] = {}, !.sentInVisit[s] = FALSE,
                 \* a request still unanswered when the station takes a new token was abandoned (an unexpected telegram
                 \* ended the wait): 'at most one of reply / time-out per request'
                 !.outstanding[s] = -1,
@@ -200,9 +200,15 @@ OnTx(rs, e) ==
         <<"C12.one", (gappoll /\ ~single /\ v.open) => (v.gappolls + 1 <= 1 \/ v.claim)>> >>
       (* ---- application request *)
       appreq == IsReq(b) /\ cls = "Holder" /\ rs.appsent[s]
+      \* "no application is starved": a token visit that ends without any application request has asked every
+      \* application (each declined); an application that is not asked in four such visits in a row is starved
+      napp == NApps(cfg, s)
+      endsVisit == k = "token" /\ v.open /\ cls \in {"Holder", "PassSupervision"} /\ napp > 0 /\ ~rs.sentInVisit[s] /\ ~retry
+      starved == {a \in 0..(napp - 1) : a \notin rs.asked[s] /\ rs.unasked[s][a] + 1 >= 4}
       c13 == <<
         <<"C13.hold", (appreq /\ ~single /\ v.open /\ v.appreqs >= 1 /\ rs.recvPrev[s] # -1)
-                        => e.t0 < rs.recvPrev[s] + cfg.ttr + Period(cfg, s) + cfg.us>> >>
+                        => e.t0 < rs.recvPrev[s] + cfg.ttr + Period(cfg, s) + cfg.us>>,
+        <<"C13.starve", (endsVisit /\ ~single) => starved = {}>> >>
       (* ---- reply to a status request *)
       sresp == cls = "Reply" /\ k = "data" /\ IsStatusReq(last.b)
       p == rs.pre[s]
@@ -225,10 +231,12 @@ OnTx(rs, e) ==
               \o (IF passOn /\ rs.reached THEN <<ConvProp(rs) \o ".order">> ELSE <<>>)
               \o (IF judged /\ gappoll THEN <<"C12.range">> ELSE <<>>)
               \o (IF judged /\ appreq /\ v.open /\ v.appreqs >= 1 /\ rs.recvPrev[s] # -1 THEN <<"C13.hold">> ELSE <<>>)
+              \o (IF judged /\ endsVisit /\ ~single THEN <<"C13.starve">> ELSE <<>>)
               \o (IF judged /\ sresp THEN <<"C12.reply.state">> ELSE <<>>)
       (* ---- state update *)
       rs1 == [rs EXCEPT !.last = [by |-> s, t0 |-> e.t0, t1 |-> e.t1, b |-> b, app |-> rs.appsent[s]],
-                        !.rogue = @ \/ rs.unread > 0, !.selfOffer[s] = FALSE, !.selfSeen = -1]
+                        !.rogue = @ \/ rs.unread > 0, !.selfOffer[s] = FALSE, !.selfSeen = -1,
+                        !.unasked[s] = IF endsVisit THEN [a \in 0..3 |-> IF a \in rs.asked[s] \/ a >= napp THEN 0 ELSE @[a] + 1] ELSE @]
       \* heard watch: any transmission by someone else within tsl after a pass
       rs2 == IF rs.hw.by # -1 /\ rs.hw.by # s /\ gap < cfg.tsl /\ ~rs.hw.heard THEN [rs1 EXCEPT !.hw.heard = TRUE] ELSE rs1
       rs3 == IF cls = "Holder" /\ g.pending /\ ~IsResp(b) THEN [rs2 EXCEPT !.grant[s].pending = FALSE, !.offered[s] = {}] ELSE rs2
@@ -336,9 +344,10 @@ OnCb(rs, e) ==
              \* seen on the wire are not the visits the station lives through - the per-visit clauses are not judged)
              <<"C15.rr", (rs.cfg.mode # "single" /\ rs.rrNext[s] # -1) => rs.rrNext[s] = a>>,
              <<"C15.done", rs.cfg.mode # "single" => a \notin rs.declined[s]>> >>
+           rs0 == [rs EXCEPT !.asked[s] = @ \cup {a}, !.sentInVisit[s] = @ \/ e.sent]
            rs1 == IF e.sent
-                  THEN [rs EXCEPT !.appsent[s] = TRUE, !.outstanding[s] = IF e.reply THEN a ELSE -1, !.rrNext[s] = a]
-                  ELSE [rs EXCEPT !.declined[s] = @ \cup {a}, !.rrNext[s] = (a + 1) % n]
+                  THEN [rs0 EXCEPT !.appsent[s] = TRUE, !.outstanding[s] = IF e.reply THEN a ELSE -1, !.rrNext[s] = a]
+                  ELSE [rs0 EXCEPT !.declined[s] = @ \cup {a}, !.rrNext[s] = (a + 1) % n]
        IN R(IF judged THEN FirstBad(cs) ELSE "ok", [st |-> s, k |-> e.k], rs1, IF judged THEN <<"C15.holder", "C15.rr">> ELSE <<>>)
      ELSE
        LET cs == <<
@@ -387,7 +396,7 @@ RuleStep(rs, e) ==
 AllClauses == {"C01.overlap", "C01.permission", "C01.tsdr", "C01.tid", "C01.Reply", "C01.Holder", "C01.PassSupervision", "C01.Claim", "C01.None",
                "C11.accept", "C11.max3", "C11.immediate", "C11.drop", "C11.patience", "C11.heard", "C11.own",
                "C12.range", "C12.one", "C12.cadence", "C12.successor", "C12.reply.state", "C12.reply.when", "C12.ready",
-               "C13.hold",
+               "C13.hold", "C13.starve",
                "C15.holder", "C15.rr", "C15.done", "C15.match", "C15.form", "C15.reply", "C15.timeout",
                "C02.order", "C02.stable", "C02.converge", "C02.end", "C06.order", "C06.stable", "C06.converge", "C06.end",
                "C06.single", "C06.alive", "C05.panic", "C05.hang"}
